@@ -13,13 +13,14 @@ import (
 // malformed arguments (differential only).
 
 type gen struct {
-	r    *vh.Rand
-	ref  *ref
-	term uint64 // current term of the imagined cluster
-	key  uint64
-	ops  []string
-	wild bool
-	out  int // outstanding updates in wild mode
+	r     *vh.Rand
+	ref   *ref
+	term  uint64 // current term of the imagined cluster
+	key   uint64
+	ops   []string
+	wild  bool
+	out   int // outstanding updates in wild mode
+	store string
 }
 
 func (g *gen) lens() int {
@@ -64,7 +65,34 @@ func (g *gen) emit(op string) {
 	}
 }
 
+// boundary: an index at or just outside one of the boundaries of the log view:
+// marker, first, what has been handed out / saved (where the in-memory window and
+// the reader's range end), last
+func (g *gen) boundary() uint64 {
+	r := g.ref
+	b := []uint64{r.mi, r.mi + 1, r.processed, r.processed + 1, r.saved, r.saved + 1, r.saved + 2,
+		r.committed, r.last(), r.last() + 1, r.last() + 2}
+	x := b[g.r.Intn(len(b))]
+	if g.r.Chance(1, 6) && x > 0 {
+		x--
+	}
+	return x
+}
+
 func (g *gen) query() {
+	if g.r.Chance(1, 2) { // at and just outside every boundary
+		if g.r.Bool() {
+			g.emit(fmt.Sprintf("QT %d", g.boundary()))
+			return
+		}
+		lo, hi := g.boundary(), g.boundary()
+		if lo > hi && g.r.Chance(9, 10) {
+			lo, hi = hi, lo
+		}
+		mx := []uint64{0, 128, 300, 1000, ^uint64(0)}[g.r.Intn(5)]
+		g.emit(fmt.Sprintf("QE %d %d %d", lo, hi, mx))
+		return
+	}
 	r := g.ref
 	span := uint64(len(r.ents) + 4)
 	base := r.mi
@@ -273,7 +301,31 @@ func (g *gen) restore() {
 // wild steps: the same ingredients without the cycle discipline, plus malformed arguments
 func (g *gen) wildStep() {
 	r := g.ref
-	switch g.r.Intn(14) {
+	switch g.r.Intn(18) {
+	case 14: // the store alone is compacted (another path): it holds less than the reader claims
+		if g.store == "plain" || g.store == "batched" {
+			// the real plain store panics (MustUnmarshal: EOF) when a single removed index at or
+			// below its max index is read; the engine never gets there (the reader is compacted
+			// first), the abstract store has no such outcome
+			g.query()
+			return
+		}
+		g.emit(fmt.Sprintf("XS %d", r.mi+uint64(g.r.Intn(len(r.ents)+2))))
+		g.query()
+	case 15: // the reader's range is set directly: shorter or longer than what the store holds
+		first := r.mi + 1 + uint64(g.r.Intn(len(r.ents)+1))
+		g.emit(fmt.Sprintf("LR %d %d", first, g.r.Intn(4)))
+		g.query()
+	case 16:
+		if first := r.mi + 1; g.r.Bool() && r.saved >= first { // cut the claimed range short of what was saved
+			cut := first + uint64(g.r.Intn(int(r.saved-first)+1))
+			g.emit(fmt.Sprintf("LR %d 1", cut))
+			g.query()
+		} else {
+			g.emit(fmt.Sprintf("CC %d", 20+g.r.Intn(60)))
+		}
+	case 17:
+		g.query()
 	case 0:
 		g.emit(fmt.Sprintf("G %d %d", g.r.Intn(2), g.lastApplied()))
 		g.out++
@@ -382,6 +434,14 @@ func genCase(r *vh.Rand, i int, tier string) string {
 	}
 	h := header{mi: mi, mt: mt, committed: committed, limit: limit, ents: ents}
 	g.ref = newMonitor(h, "", nil).r
+	switch r.Intn(6) {
+	case 0:
+		g.store = "plain"
+	case 1:
+		g.store = "batched"
+	case 2, 3:
+		g.store = "front"
+	}
 	n := 6 + r.Intn(30)
 	if tier == "thorough" {
 		n = 6 + r.Intn(80)
@@ -405,11 +465,8 @@ func genCase(r *vh.Rand, i int, tier string) string {
 		ss := [][2]uint64{{2, 1}, {4, 1}, {4, 3}, {8, 3}, {16, 15}, {6, 2}}[r.Intn(6)]
 		opts += fmt.Sprintf(" ss=%d:%d", ss[0], ss[1])
 	}
-	switch r.Intn(4) {
-	case 0:
-		opts += " st=plain"
-	case 1:
-		opts += " st=batched"
+	if g.store != "" {
+		opts += " st=" + g.store
 	}
 	return fmt.Sprintf("I %d %d %d %d %d %s%s | %s", mi, mt, committed, limit, wf, showEnts(ents), opts, strings.Join(g.ops, " ; "))
 }
